@@ -101,8 +101,8 @@ def run_extras(pid, tier):
         for f in sc['shared_mutable_state'] + sc['unexpected_lazy_statics']:
             rep['violations'].append(dict(obligation='C18.no_shared_mutable_state', kind='structural-scan', function=None, message='shared mutable state: ' + f,
                                           clause=None, repo_site=None, properties=['C18'], verifier_output='tools/scan_state.py: ' + f))
-    if pid in ('C12', 'C15'):
-        # standing bounded stand-in for the functions that are NOT under contract (get_content_type_and_charset, trim_ascii, IntoRequestBytes impls)
+    if pid in ('C12', 'C15', 'C05'):
+        # standing bounded stand-in for the functions that are NOT under contract (get_content_type_and_charset, trim_ascii, IntoRequestBytes impls, VecSignedHeaderRequirements::add_*/remove_*)
         st = native_run(['standing', pid], timeout=120)
         rep['standing_bounded'] = st
         if st and st.get('found'):
